@@ -39,10 +39,14 @@ func c06Corruptions(mode string) []string {
 		return common
 	case "stream-signed":
 		return append(common, "chunk-sig-first", "chunk-sig-middle", "chunk-sig-final", "chunk-data-bit-flip", "truncate-after-chunk", "truncate-mid-chunk",
-			"truncate-before-final", "declared-length-larger", "declared-length-smaller", "extra-bytes-after-final", "chunk-size-larger-than-data")
+			"truncate-before-final", "declared-length-larger", "declared-length-smaller", "extra-bytes-after-final", "chunk-size-larger-than-data",
+			"cut-at-chunk-boundary-length-adjusted", "cut-at-chunk-boundary-length-adjusted+bit-flip", "cut-at-chunk-boundary-length-adjusted+sig-wrong",
+			"cut-at-chunk-data-end-length-adjusted", "cut-at-chunk-data-end-length-adjusted+bit-flip", "cut-at-chunk-data-end-length-adjusted+sig-wrong")
 	case "stream-signed-trailer":
 		return []string{"trailer-checksum-wrong", "trailer-signature-wrong", "chunk-sig-first", "chunk-sig-final", "chunk-data-bit-flip", "truncate-after-chunk",
-			"truncate-before-final", "truncate-in-trailer", "declared-length-larger", "declared-length-smaller"}
+			"truncate-before-final", "truncate-in-trailer", "declared-length-larger", "declared-length-smaller",
+			"cut-at-chunk-boundary-length-adjusted", "cut-at-chunk-boundary-length-adjusted+bit-flip",
+			"cut-at-chunk-data-end-length-adjusted", "cut-at-chunk-data-end-length-adjusted+bit-flip"}
 	case "stream-unsigned-trailer":
 		return []string{"trailer-checksum-wrong", "chunk-data-bit-flip", "truncate-after-chunk", "truncate-after-size-line", "truncate-mid-chunk", "truncate-before-final",
 			"truncate-in-trailer", "declared-length-larger", "declared-length-smaller", "chunk-size-larger-than-data", "missing-trailer"}
@@ -141,6 +145,37 @@ func (c c06Case) apply(req *gw.Req, body []byte) {
 			}
 			return w[:last+2]
 		})
+	case "cut-at-chunk-boundary-length-adjusted", "cut-at-chunk-boundary-length-adjusted+bit-flip", "cut-at-chunk-boundary-length-adjusted+sig-wrong",
+		"cut-at-chunk-data-end-length-adjusted", "cut-at-chunk-data-end-length-adjusted+bit-flip", "cut-at-chunk-data-end-length-adjusted+sig-wrong":
+		// the stream stops right after the data of its first chunk (no final chunk, no trailer) and the declared
+		// decoded length says exactly that many bytes: only the missing end of the signature chain (and, in the
+		// variants, the flipped bit / altered signature of that last chunk) tells that the upload is not intact
+		first := len(body)
+		if len(c.chunks) > 0 && c.chunks[0] < first {
+			first = c.chunks[0]
+		}
+		n := int64(first)
+		req.DeclLen = &n
+		variant := c.corrupt
+		mut(func(w []byte) []byte {
+			w = append([]byte{}, w...)
+			i := bytes.Index(w, []byte("\r\n"))
+			if i < 0 || i+2+first+2 > len(w) {
+				return w[:len(w)/2]
+			}
+			if strings.HasSuffix(variant, "+bit-flip") && first > 0 {
+				w[i+2+first/2] ^= 0x04
+			}
+			if strings.HasSuffix(variant, "+sig-wrong") {
+				if idx := indices(w[:i], "chunk-signature="); len(idx) > 0 {
+					flipHexAt(w, idx[0]+5)
+				}
+			}
+			if strings.HasPrefix(variant, "cut-at-chunk-data-end") {
+				return w[:i+2+first] // not even the CRLF that closes the chunk
+			}
+			return w[:i+2+first+2]
+		})
 	case "truncate-after-size-line":
 		mut(func(w []byte) []byte {
 			i := bytes.Index(w, []byte("\r\n"))
@@ -222,8 +257,9 @@ func (c c06Case) apply(req *gw.Req, body []byte) {
 // exactly the declared bytes.
 func c06Matrix(a lib.Args, res *lib.Result) error {
 	r := lib.NewRand(a.Seed).Fork()
-	for _, versioned := range []bool{false, true} {
-		cfg, err := mustStorage(a, fmt.Sprintf("c06-%v", versioned), versioned, false, nil)
+	for ci, conf := range [][2]bool{{false, false}, {true, false}, {false, true}} {
+		versioned, sidecar := conf[0], conf[1]
+		cfg, err := mustStorage(a, fmt.Sprintf("c06-%d", ci), versioned, sidecar, nil)
 		if err != nil {
 			return err
 		}
@@ -256,6 +292,9 @@ func c06Matrix(a lib.Args, res *lib.Result) error {
 		reps := 1
 		if a.Thorough() {
 			reps = 6
+			if sidecar {
+				reps = 2
+			}
 		}
 		for rep := 0; rep < reps; rep++ {
 			for _, mode := range []string{"header", "unsigned", "stream-signed", "stream-signed-trailer", "stream-unsigned-trailer"} {
@@ -287,7 +326,13 @@ func c06Matrix(a lib.Args, res *lib.Result) error {
 			}
 			old := r.Bytes(33 + r.Intn(100))
 			if c.existing {
-				if rsp := do(gw.Req{Method: "PUT", Path: path, Query: query, Body: old}); rsp.Status != 200 {
+				seedReq := gw.Req{Method: "PUT", Path: path, Query: query, Body: old}
+				if c.target == "putObject" {
+					seedReq.Set("Content-Type", "text/x-old")
+					seedReq.Set("x-amz-meta-gen", "old")
+					seedReq.Set("Cache-Control", "max-age=7")
+				}
+				if rsp := do(seedReq); rsp.Status != 200 {
 					g.Kill()
 					return fmt.Errorf("seed %s: %d %s", c, rsp.Status, rsp.Body)
 				}
@@ -296,7 +341,8 @@ func c06Matrix(a lib.Args, res *lib.Result) error {
 				var parts []string
 				if c.target == "putObject" {
 					gr := do(gw.Req{Method: "GET", Path: path})
-					parts = append(parts, fmt.Sprintf("GET %d %x etag=%s", gr.Status, md5.Sum(gr.Body), gr.Headers.Get("ETag")))
+					parts = append(parts, fmt.Sprintf("GET %d %x etag=%s ctype=%s meta=%s cc=%s", gr.Status, md5.Sum(gr.Body), gr.Headers.Get("ETag"),
+						gr.Headers.Get("Content-Type"), gr.Headers.Get("X-Amz-Meta-Gen"), gr.Headers.Get("Cache-Control")))
 				}
 				lr := do(gw.Req{Method: "GET", Path: listPath, Query: listQuery})
 				// keep only what identifies versions / parts: ids, etags, sizes, part numbers
@@ -348,6 +394,9 @@ func c06Matrix(a lib.Args, res *lib.Result) error {
 			}
 			in := map[string]interface{}{"case": c.String(), "mode": c.mode, "target": c.target, "existing": c.existing, "corrupt": c.corrupt, "algo": c.algo, "size": c.size, "chunks": c.chunks, "versioned": c.versioned}
 			sig := fmt.Sprintf("integrity:%s:%s:%s", c.target, c.mode, c.corrupt)
+			if sidecar {
+				sig = "sidecar:" + sig
+			}
 			if !g.Alive() {
 				res.Fail(lib.Failure{Kind: "property", Signature: sig + ":gateway-died", What: "gateway process died", Input: in, Impl: g.Log.String()})
 				break
